@@ -247,3 +247,145 @@ Proof.
   rewrite map_map. rewrite (map_ext_in _ (fun pi => pi)); [rewrite map_id; auto|].
   intros pi Hpi. destruct (F2 pi Hpi) as [-> _]. now destruct pi.
 Qed.
+
+(* ---------------- what PeerInfos returns is well formed ---------------- *)
+Definition ps_ok (ps : pstore) : Prop := forall p, NoDup (map fst (addrs_of ps p)).
+
+Lemma ps_empty_ok : ps_ok ps_empty.
+Proof. intros p. constructor. Qed.
+
+Lemma nodup_snoc {A} (x : A) l : NoDup l -> ~ In x l -> NoDup (l ++ [x]).
+Proof.
+  induction l as [|y ys IH]; simpl; intros Hnd Hn; [repeat constructor; auto|].
+  inversion Hnd as [|? ? Hy Hys]; subst. constructor.
+  - rewrite in_app_iff. simpl. intuition.
+  - apply IH; auto.
+Qed.
+
+Lemma add_set_nodup t l : NoDup (map fst l) -> NoDup (map fst (add_set t l)).
+Proof.
+  intros H. unfold add_set. destruct (existsb (tr_eqb t) l) eqn:E; auto.
+  rewrite map_app. simpl. apply nodup_snoc; auto.
+  intros Hin. apply in_map_iff in Hin. destruct Hin as [u [Eu Hu]].
+  assert (existsb (tr_eqb t) l = true); [|congruence].
+  apply existsb_exists. exists u. split; auto. unfold tr_eqb. rewrite Eu. apply N.eqb_refl.
+Qed.
+
+Lemma add_addr_ok p t ps : ps_ok ps -> ps_ok (add_addr p t ps).
+Proof.
+  intros H q. destruct (N.eq_dec q p) as [->|Hne].
+  - rewrite addrs_of_add_same. apply add_set_nodup, H.
+  - rewrite addrs_of_add_other by auto. apply H.
+Qed.
+
+Lemma set_prio_ok p i ps : ps_ok ps -> ps_ok (set_prio p i ps).
+Proof. intros H q. rewrite addrs_of_set_prio. apply H. Qed.
+
+Lemma import_peers_ok self : forall addrs i ps ps', ps_ok ps -> import_peers_from self i addrs ps = IOk ps' -> ps_ok ps'.
+Proof.
+  induction addrs as [|a r IH]; intros i ps ps' Hok E; simpl in E.
+  - injection E as <-. exact Hok.
+  - destruct a as [a|]; [|discriminate].
+    destruct (import_peer self a ps) as [pid ps1] eqn:Ei.
+    assert (Hok1 : ps_ok ps1).
+    { unfold import_peer in Ei. destruct a as [x|p0 tr]; [injection Ei as _ <-; exact Hok|].
+      destruct (N.eqb p0 self); [injection Ei as _ <-; exact Hok|].
+      injection Ei as _ <-. destruct tr; [now apply add_addr_ok|exact Hok]. }
+    destruct pid as [p|].
+    + apply (IH (S i) (set_prio p i ps1) ps'); [now apply set_prio_ok|exact E].
+    + apply (IH (S i) ps1 ps'); [exact Hok1|exact E].
+Qed.
+
+Lemma le_nodup_lt {A} (key : A -> nat) l : StronglySorted (kle key) l -> NoDup (map key l) -> StronglySorted (klt key) l.
+Proof.
+  induction 1 as [|a l Hs IH Hall]; intros Hnd; constructor.
+  - apply IH. now inversion Hnd.
+  - inversion Hnd as [|? ? Hnot _]; subst. rewrite Forall_forall in *. intros x Hx.
+    specialize (Hall x Hx). unfold kle, klt in *.
+    assert (key a <> key x). { intros E. apply Hnot. rewrite E. now apply in_map. }
+    lia.
+Qed.
+
+Lemma tr_key_nodup (l : list transport) : NoDup (map fst l) -> NoDup (map tr_key l).
+Proof.
+  intros H. replace (map tr_key l) with (map N.to_nat (map fst l)) by (rewrite map_map; reflexivity).
+  apply FinFun.Injective_map_NoDup; auto. intros x y. apply N2Nat.inj.
+Qed.
+
+Lemma filter_nodup_map {A B} (f : A -> B) (g : A -> bool) l : NoDup (map f l) -> NoDup (map f (filter g l)).
+Proof.
+  induction l as [|x xs IH]; simpl; auto. intros H. inversion H as [|? ? Hn Hr]; subst.
+  destruct (g x); simpl; auto. constructor; auto. intros Hin. apply Hn.
+  apply in_map_iff in Hin. destruct Hin as [y [E Hy]]. apply filter_In in Hy. rewrite <- E. apply in_map. tauto.
+Qed.
+
+Lemma filter_nil_all {A} (g : A -> bool) l : filter g l = [] -> forall x, In x l -> g x = false.
+Proof.
+  induction l as [|y ys IH]; simpl; [tauto|]. destruct (g y) eqn:E; [discriminate|]. intros H x [<-|Hx]; auto.
+Qed.
+
+Lemma sorted_strict_of_perm (l l' : list transport) :
+  NoDup (map tr_key l) -> l' = sort_by tr_key l -> StronglySorted (klt tr_key) l'.
+Proof.
+  intros Hnd ->. apply le_nodup_lt; [apply sort_by_sorted|].
+  eapply Permutation_NoDup; [apply Permutation_map, Permutation_sym, sort_by_perm|exact Hnd].
+Qed.
+
+Lemma filtered_addrs_wf_any ps p : ps_ok ps -> filtered_addrs ps p <> [] -> wf_addrs (filtered_addrs ps p).
+Proof.
+  intros Hok Hne. unfold filtered_addrs in *. specialize (Hok p). set (all := addrs_of ps p) in *.
+  destruct (filter (fun t : (N * bool)%type => snd t) all) as [|t0 l0] eqn:E.
+  - split; [exact Hne|]. split.
+    + eapply sorted_strict_of_perm; [apply tr_key_nodup; exact Hok|reflexivity].
+    + right. apply forallb_forall. intros x Hx. apply (Permutation_in _ (sort_by_perm tr_key all)) in Hx.
+      now rewrite (filter_nil_all _ _ E x Hx).
+  - split; [exact Hne|]. split.
+    + eapply sorted_strict_of_perm; [|reflexivity]. apply tr_key_nodup. rewrite <- E. now apply filter_nodup_map.
+    + left. apply forallb_forall. intros x Hx. apply (Permutation_in _ (sort_by_perm tr_key (t0 :: l0))) in Hx.
+      rewrite <- E in Hx. apply filter_In in Hx. tauto.
+Qed.
+
+Definition pi_of (self : N) (ps : pstore) (p : N) : list pinfo :=
+  if N.eqb p self then [] else match filtered_addrs ps p with [] => [] | l => [(p, l)] end.
+
+Lemma pi_of_in self ps p pi : In pi (pi_of self ps p) -> fst pi = p /\ p <> self /\ snd pi = filtered_addrs ps p /\ snd pi <> [].
+Proof.
+  unfold pi_of. destruct (N.eqb_spec p self) as [->|Hne]; [simpl; tauto|].
+  destruct (filtered_addrs ps p) as [|t l] eqn:E; simpl; [tauto|]. intros [<-|[]]. simpl. repeat split; auto. discriminate.
+Qed.
+
+Lemma flat_pi_nodup self ps peers : NoDup peers -> NoDup (map fst (flat_map (pi_of self ps) peers)).
+Proof.
+  induction peers as [|p r IH]; simpl; intros H; [constructor|]. inversion H as [|? ? Hn Hr]; subst.
+  rewrite map_app. unfold pi_of at 1. destruct (N.eqb p self); [simpl; auto|].
+  destruct (filtered_addrs ps p); simpl; auto. constructor; auto.
+  intros Hin. apply in_map_iff in Hin. destruct Hin as [pi [E Hpi]]. apply in_flat_map in Hpi.
+  destruct Hpi as [q [Hq Hpq]]. apply pi_of_in in Hpq. destruct Hpq as [E2 _]. apply Hn. congruence.
+Qed.
+
+Lemma peer_infos_wf self ps peers : ps_ok ps -> NoDup peers ->
+  wf_infos (peer_infos self ps peers) /\ ~ In self (map fst (peer_infos self ps peers)).
+Proof.
+  intros Hok Hnd. unfold peer_infos. fold (pi_of self ps).
+  set (L := flat_map (pi_of self ps) peers).
+  assert (P : Permutation (sort_by (fun pi : pinfo => prio_of ps (fst pi)) L) L) by apply sort_by_perm.
+  assert (HL : forall pi, In pi L -> fst pi <> self /\ snd pi = filtered_addrs ps (fst pi) /\ snd pi <> []).
+  { intros pi Hpi. apply in_flat_map in Hpi. destruct Hpi as [q [_ Hq]]. apply pi_of_in in Hq.
+    destruct Hq as [E [H1 [H2 H3]]]. subst q. auto. }
+  split; [split|].
+  - eapply Permutation_NoDup; [apply Permutation_map, Permutation_sym, P|]. now apply flat_pi_nodup.
+  - intros pi Hpi. apply (Permutation_in _ P) in Hpi. destruct (HL pi Hpi) as [_ [E Hne]].
+    rewrite E in *. now apply filtered_addrs_wf_any.
+  - intros Hin. apply in_map_iff in Hin. destruct Hin as [pi [E Hpi]]. apply (Permutation_in _ P) in Hpi.
+    destruct (HL pi Hpi) as [H _]. congruence.
+Qed.
+
+(* whatever file a host started from, what it saves at shutdown reads back identically on another host *)
+Lemma roundtrip_from_any_file ls self peers self2 query ps :
+  import_file true self ls ps_empty = IOk ps -> NoDup peers ->
+  let infos := peer_infos self ps peers in
+  ~ In self2 (map fst infos) -> Permutation query (map fst infos) -> reload self2 infos query = Some infos.
+Proof.
+  intros E Hnd infos Hs Hp. apply reload_roundtrip; auto.
+  apply peer_infos_wf; auto. eapply import_peers_ok; [apply ps_empty_ok|exact E].
+Qed.
